@@ -9,7 +9,10 @@ import prettyprinter as P
 CFG = "INIT Init\nNEXT Next\nINVARIANT Report\nCHECK_DEADLOCK FALSE\n"
 WORDS = ['w', '#', "'", '"', '(', ']', ',', 'a,b', '\\', 'word', '{x}', '#!', "it's", 'caf\xe9', '\u4e2d\u6587',
          'averyveryveryveryveryveryveryveryveryverylongwordthatcannotbebrokenanywhere', '%s', '{0}', '...and', 'more', 'elements']
-SEPS = [' ', '  ', '\t', '\n', '\n\n', ' \n ']
+SEPS = [' ', '  ', '\t', '\n', '\n\n', ' \n ', ' ', '\n',
+        # every other character str.splitlines() / str.split() treat as a separator: to Python's tokenizer a bare
+        # carriage return ends the line (and the comment); the rest must at least not glue or drop words
+        '\r', '\r\n', '\x0c', '\x0b', '\x1c', '\x1d', '\x1e', '\x85', '\u2028', '\u2029', '\xa0 ', ' \u3000']
 
 
 class G:
